@@ -62,6 +62,13 @@ RULES = {
         "(kernel/lafem/base.hpp): Shallow share/share, Layout share/fresh, Weak share/fresh+copy, Deep copy/copy, Allocate fresh/fresh; "
         "'shared' always with the increase_memory loop, 'copy' = MemoryPool::copy of the like-indexed source array with the "
         "recorded extent. Broken -> weak/deep clones not value-independent, or shallow clones not aliasing.", 5),
+    "C02.clone-cross-type": (
+        "the templated Container::clone(const Container<DT2,IT2>&, mode) is evaluated symbolically (temporary := assign(source); then "
+        "clone(temporary, mode) / move(temporary) per mode) by composing the extracted sharing table of Container::assign with the extracted "
+        "aliasing table of Container::clone: whenever the enum documentation promises freshly allocated arrays (data arrays for Layout, "
+        "Weak, Deep, Allocate; index arrays for Deep, Allocate) the result must not alias the source, for every (data type same/"
+        "different) x (index type same/different) instantiation. Broken (e.g. adopting the conversion temporary, whose equal-typed "
+        "arrays are shared with the source) -> a weak clone across index types aliases the source's values.", 18),
     "C02.convert-sharing": (
         "Container::assign (same-container-kind convert): arrays of an equal data (index) type are shared with the source "
         "(+increase_memory), arrays of a different type are freshly allocated and filled by MemoryPool::convert from the like-indexed "
@@ -587,6 +594,193 @@ def clone_rules(ck, fam, seen_fail):
                   fn.file, fn.line, sample={"mode": mode, "documented": [want_i, want_e], "extracted": [got_i, got_e]})
 
 
+def extracted_tables(fam):
+    """-> (clone table {mode value: (indices, elements)} of the same-type Container::clone,
+           assign table {(sameDT, sameIT): {kind: shared|fresh+copy|...}}) extracted from the code; None entries on failure"""
+    doc, err = documented_clone_table()
+    ctab, atab = {}, {}
+    fns = [f for f in fam.functions() if f.name == "clone" and L.short(f.cls) == "Container" and len(f.params) == 2
+           and f.full.count("<") == f.cls.count("<")]
+    if doc and fns:
+        fn = fns[0]
+        for mode, (val, _, _) in doc.items():
+            it = L.Interp(fam, fn, env={fn.params[1]["n"]: val}).run()
+            st = None
+            for s_, _ in it.exits:
+                st = L.join_state(st, s_)
+            if it.unknown or st is None:
+                continue
+            fl = st.get(("flag", "this"))
+            ctab[val] = (classify(st[("this", "indices")], fl, it, "indices", fn.params[0]["n"]),
+                         classify(st[("this", "elements")], fl, it, "elements", fn.params[0]["n"]))
+    for fn in [f for f in fam.functions() if f.name == "assign" and L.short(f.cls) == "Container" and len(f.params) == 1]:
+        ca, fa = targs(fn.cls), targs(fn.full)
+        if len(ca) != 2 or len(fa) != 2:
+            continue
+        it = L.Interp(fam, fn).run()
+        st = None
+        for s_, _ in it.exits:
+            st = L.join_state(st, s_)
+        if it.unknown or st is None:
+            continue
+        fl = st.get(("flag", "this"))
+        atab[(ca[0] == fa[0], ca[1] == fa[1])] = {k: classify(st[("this", k)], fl, it, k, fn.params[0]["n"]) for k in ("elements", "indices")}
+    return ctab, atab
+
+
+def cross_clone_rules(ck, fam, seen_fail):
+    doc, err = documented_clone_table()
+    if doc is None:
+        ck.incomplete("C02.clone-cross-type", err)
+        return
+    ctab, atab = extracted_tables(fam)
+    fns = [f for f in fam.functions() if f.name == "clone" and L.short(f.cls) == "Container" and len(f.params) == 2
+           and f.full.count("<") > f.cls.count("<")]
+    combos = set()
+    for fn in fns:
+        ca, fa = targs(fn.cls), targs(fn.full)
+        if len(ca) != 2 or len(fa) != 2:
+            ck.incomplete("C02.clone-cross-type", "template arguments of %s not recognised" % fn.full)
+            continue
+        same = (ca[0] == fa[0], ca[1] == fa[1])
+        combos.add(same)
+        src = "%s#%s" % (fn.params[0]["n"], fn.params[0]["d"])
+        modep = fn.params[1]["n"]
+        for mode, (val, want_i, want_e) in sorted(doc.items(), key=lambda kv: kv[1][0]):
+            it = L.Interp(fam, fn, env={modep: val})
+            rel_ = {}          # object -> {kind: 'shared' (aliases the source) | 'fresh' | 'none'}
+            problems = []
+
+            def call_effect(n):
+                nm = n.get("n")
+                o = L.obj_id(n.get("obj")) if n.get("obj") is not None else "this"
+                if o is None or L.short(n.get("ccls", "")) != "Container":
+                    return False
+                args = n.get("a") or []
+                a0 = L.obj_id(args[0]) if args else None
+                if nm == "assign" and len(args) == 1 and a0 is not None:
+                    callee = fam.callee_fn(fn, n)
+                    if callee is None:
+                        problems.append("callee of assign not found")
+                        return True
+                    c2, f2 = targs(callee.cls), targs(callee.full)
+                    tab = atab.get((c2[0] == f2[0], c2[1] == f2[1])) if len(c2) == 2 and len(f2) == 2 else None
+                    if tab is None:
+                        problems.append("no extracted sharing table for %s" % callee.full)
+                        return True
+                    srcrel = rel_.get(a0, {"elements": "shared", "indices": "shared"} if a0 == src else None)
+                    if srcrel is None:
+                        problems.append("assign from an untracked object")
+                        return True
+                    rel_[o] = {k: (srcrel[k] if tab[k] == "shared" else "fresh" if tab[k].startswith("fresh") else "?") for k in ("elements", "indices")}
+                    return True
+                if nm == "clone" and len(args) == 2 and a0 is not None:
+                    m = it.const_of(args[1])
+                    if m is None or m not in ctab:
+                        problems.append("clone with a mode that is not a constant under clone_mode == %s" % mode)
+                        return True
+                    srcrel = rel_.get(a0, {"elements": "shared", "indices": "shared"} if a0 == src else None)
+                    if srcrel is None:
+                        problems.append("clone from an untracked object")
+                        return True
+                    ci, ce = ctab[m]
+                    rel_[o] = {"indices": srcrel["indices"] if ci == "shared" else "fresh" if ci.startswith("fresh") else "?",
+                               "elements": srcrel["elements"] if ce == "shared" else "fresh" if ce.startswith("fresh") else "?"}
+                    return True
+                if nm == "move" and len(args) == 1 and a0 is not None:
+                    srcrel = rel_.get(a0)
+                    if srcrel is None:
+                        problems.append("move from an untracked object")
+                        return True
+                    rel_[o] = dict(srcrel)
+                    return True
+                if nm in ("clear",):
+                    rel_[o] = {"elements": "none", "indices": "none"}
+                    return True
+                return False
+
+            def ex(n):
+                """returns False when the path has returned"""
+                k = n.get("k")
+                if k == "Block":
+                    for s_ in n.get("s", []):
+                        if not ex(s_):
+                            return False
+                    return True
+                if k == "Null_":
+                    return True
+                if k == "Decl":
+                    for v in n.get("vars", []):
+                        t = L.short(fn.type(v.get("t")))
+                        if t == "Container" and not v.get("ref"):
+                            rel_["%s#%s" % (v["n"], v["d"])] = {"elements": "none", "indices": "none"}
+                        elif v.get("init") is not None and any(L.is_call(x) and L.short(x.get("ccls", "")) == "Container" and not x.get("cconst") for x in walk(v["init"])):
+                            problems.append("declaration %s at line %s" % (v["n"], n.get("l")))
+                    return True
+                if k == "If":
+                    if n.get("constexpr"):
+                        th, el = n.get("then"), n.get("else")
+                        if th is not None and th.get("k") == "Null_":
+                            return ex(el) if el is not None else True
+                        if el is not None and el.get("k") == "Null_":
+                            return ex(th)
+                        c = n["c"]
+                        cv = it.eval_cond(c)
+                        if cv is None and c.get("k") == "Ref" and c.get("v") is not None:
+                            cv = bool(int(c["v"]))
+                        if el is None and cv is True:
+                            return ex(th)
+                        if el is None and cv is False:
+                            return True
+                    v = it.eval_cond(n["c"])
+                    if v is True:
+                        return ex(n["then"])
+                    if v is False:
+                        return ex(n["else"]) if n.get("else") is not None else True
+                    problems.append("condition %s not decided by clone_mode == %s" % (render(n["c"])[:60], mode))
+                    return False
+                if k == "Return":
+                    return False
+                if k == "MCall":
+                    if call_effect(n):
+                        return True
+                    if n.get("cconst") or L.short(n.get("ccls", "")) != "Container":
+                        return True
+                    problems.append("call %s at line %s" % (render(n)[:60], n.get("l")))
+                    return True
+                if L.is_call(n) and n.get("callee") in ("FEAT::assertion",):
+                    return True
+                if L.is_call(n) and n.get("noreturn"):
+                    return False
+                problems.append("statement %s at line %s" % (render(n)[:60], n.get("l")))
+                return True
+
+            ex(fn.body)
+            got = rel_.get("this")
+            combo = "%s,%s" % ("sameDT" if same[0] else "diffDT", "sameIT" if same[1] else "diffIT")
+            if problems or got is None:
+                ck.incomplete("C02.clone-cross-type", "%s with clone_mode == %s: %s" % (L.fkey(fn), mode, "; ".join(problems) or "result never defined"))
+                continue
+            for kind, want in (("indices", want_i), ("elements", want_e)):
+                sub = "Container::clone<DT2,IT2>/CloneMode::%s/%s/%s" % (mode, combo, kind)
+                if want == "shared":
+                    ck.ob("C02.clone-cross-type", sub, True, "documented as shared: no independence required (extracted: %s)" % got[kind], fn.file, fn.line, trivial=True)
+                    continue
+                ok = got[kind] == "fresh"
+                if not ok:
+                    if ("C02.clone-cross-type", sub) in seen_fail:
+                        continue
+                    seen_fail.add(("C02.clone-cross-type", sub))
+                ck.ob("C02.clone-cross-type", sub, ok,
+                      "%s, clone_mode == %s: documented %s arrays %s; composed from assign (%s) and clone/move: the result's %s arrays are %s%s" % (
+                          fn.full, mode, kind, want, atab.get(same), kind, got[kind],
+                          "" if ok else " with the source -> the clone is not value-independent"),
+                      fn.file, fn.line, sample={"function": fn.full, "mode": mode, "array": kind, "documented": want, "composed": got[kind]})
+    need = {(True, False), (False, True), (False, False)}
+    if not need <= combos:
+        ck.incomplete("C02.clone-cross-type", "instantiations of the templated Container::clone missing for (same DT, same IT) in %s" % sorted(need - combos))
+
+
 def targs(s):
     """top-level template arguments of the last <...> group of s"""
     if not s.endswith(">"):
@@ -717,6 +911,7 @@ def run(tier):
         if is_driver:
             clone_rules(ck, fam, seen_fail)
             assign_rules(ck, fam, seen_fail)
+            cross_clone_rules(ck, fam, seen_fail)
     ck.assume("constructor parameters named <role>_in and accessors named <role>() carry that role (the repository's own naming); Adjacency::Graph domain = rows, image = columns")
     ck.assume("std::vector / MemoryPool::copy / MemoryPool::convert have their documented meaning; a moved-from std::vector is empty")
     return ck.finish(
